@@ -95,10 +95,10 @@ impl Prop for C16 {
         "exploration"
     }
     fn rule(&self, ctx: &Ctx) -> String {
-        format!("exhaustive: all lists of 1..={} elements over 66 elements (codings {{gzip, identity, *, br, deflate, x-gzip}} x weights {{none, 0, 0., 0.0, 0.000, 0.001, 0.5, 0.999, 1, 1., 1.000}}) x 4 whitespace layouts around ',' and ';'; absent / empty header; plus seeded random and mutated byte strings for the no-panic clause. Every list is a distinct case; non-trivial = grammatical and unambiguous under first/last/max/min-wins for repeated codings, compared with the RFC 7231 5.3.4 model (counted by the enumerator, which never repeats a list)", max_len(ctx))
+        format!("exhaustive: all lists of 1..={} elements over 66 elements (codings {{gzip, identity, *, br, deflate, x-gzip}} x weights {{none, 0, 0., 0.0, 0.000, 0.001, 0.5, 0.999, 1, 1., 1.000}}) x 4 whitespace layouts around ',' and ';'; absent / empty header; all 1001 x 1001 pairs of qvalues in thousandths for (gzip, identity), (identity, gzip), (gzip, *), (*, identity), in padded and shortest spelling, and inside a four-element list; plus seeded random and mutated byte strings for the no-panic clause. Every list is a distinct case; non-trivial = grammatical and unambiguous under first/last/max/min-wins for repeated codings, compared with the RFC 7231 5.3.4 model (counted by the enumerator, which never repeats a list)", max_len(ctx))
     }
     fn n_blocks(&self, ctx: &Ctx) -> usize {
-        66 * max_len(ctx) + 17
+        66 * max_len(ctx) + 17 + 12
     }
     fn exhaustive(&self, _: &Ctx) -> bool {
         true
@@ -151,6 +151,48 @@ impl Prop for C16 {
             }
             return;
         }
+        if k >= 17 {
+            // every pair of qvalues in thousandths for two codings, in six list shapes
+            let j = k - 17;
+            let (config, half) = (j % 6, j / 6);
+            let q = |t: u32, short: bool| -> String {
+                if short {
+                    match t {
+                        0 => "0".to_string(),
+                        1000 => "1".to_string(),
+                        _ => format!("0.{:03}", t).trim_end_matches('0').to_string(),
+                    }
+                } else if t == 1000 {
+                    "1.000".to_string()
+                } else {
+                    format!("0.{:03}", t)
+                }
+            };
+            let step = if ctx.leg.slow() { 97 } else { 1 };
+            let (lo, hi) = if half == 0 { (0u32, 500u32) } else { (501, 1000) };
+            let mut a = lo;
+            while a <= hi {
+                let mut b2 = 0u32;
+                while b2 <= 1000 {
+                    let v = match config {
+                        0 => format!("gzip;q={}, identity;q={}", q(a, false), q(b2, false)),
+                        1 => format!("identity;q={}, gzip;q={}", q(b2, false), q(a, false)),
+                        2 => format!("gzip;q={}, *;q={}", q(a, false), q(b2, false)),
+                        3 => format!("*;q={}, identity;q={}", q(a, false), q(b2, false)),
+                        4 => format!("gzip;q={},identity;q={}", q(a, true), q(b2, true)),
+                        _ => format!("br;q=0.3, gzip;q={}, *;q={}, deflate", q(a, true), q(b2, false)),
+                    };
+                    run_value(v.as_bytes(), sink);
+                    b2 += step;
+                }
+                if sink.stopped() {
+                    return;
+                }
+                a += step;
+            }
+            sink.count("qvalue_sweep_blocks");
+            return;
+        }
         // no-panic clause: random and mutated byte strings
         let mut rng = Rng::from_parts(ctx.seed, &[16, k as u64]);
         let n = if ctx.leg.slow() { 120 } else if ctx.tier == Tier::Thorough { 600_000 } else { 60_000 };
@@ -198,7 +240,7 @@ impl Prop for C16 {
         sink.record(verdict, if judged { Some(hash64(&v)) } else { None }, &|| json!({"accept_encoding": bytes_to_json(&v)}));
     }
     fn floors(&self, _: &Ctx) -> Vec<(&'static str, u64)> {
-        vec![("random_or_mutated_values", 100_000)]
+        vec![("random_or_mutated_values", 100_000), ("qvalue_sweep_blocks", 12)]
     }
     fn assumptions(&self) -> Vec<String> {
         vec!["not judged (property silent): lists naming gzip / identity / * twice with weights for which first-, last-, max- and min-wins disagree; coding names or 'Q=' in upper case; values outside the grammar (only the no-panic clause applies)".into()]
